@@ -473,6 +473,18 @@ def main():
                 fn(ctx)
                 shared_object_session(ctx)
                 interpreter_modes(ctx)
+                if proof_problems and not ctx.violations and tier == "quick":
+                    # a proof obligation or the translation no longer checks and the quick search found no failing
+                    # input: spend the thorough tier's case counts, under another seed, before giving up
+                    ctx2 = Ctx(pid, tier, a.seed + 7919); ctx2.boost = True
+                    t2 = time.time()
+                    fn(ctx2); shared_object_session(ctx2); interpreter_modes(ctx2)
+                    ctx.violations += ctx2.violations
+                    ctx.evaluations += ctx2.evaluations
+                    ctx.distinct |= ctx2.distinct
+                    ctx.extra["directed_search"] = {"reason": "proof obligation / translation broken, no failing input at quick counts",
+                                                    "seed": a.seed + 7919, "evaluations": ctx2.evaluations, "violations": len(ctx2.violations),
+                                                    "wall_s": round(time.time() - t2, 1)}
             finally:
                 if reach_on:
                     ctx.extra["anchor_reach"] = reach.anchor_report(anchor_where(pid))
